@@ -9,6 +9,8 @@ import (
 
 	"go.opentelemetry.io/collector/client"
 	"go.opentelemetry.io/collector/pdata/pcommon"
+	"go.opentelemetry.io/collector/pdata/plog"
+	"go.opentelemetry.io/collector/pdata/pmetric"
 	"go.opentelemetry.io/collector/pdata/ptrace"
 	"go.opentelemetry.io/otel/metric"
 	"go.opentelemetry.io/otel/metric/embedded"
@@ -121,6 +123,21 @@ func (n *verifNext) ConsumeTraces(ctx context.Context, td ptrace.Traces) error {
 		}
 	}
 	if n.begin(ctx, ids).failed {
+		return errVerifExport
+	}
+	return nil
+}
+
+// ConsumeLogs / ConsumeMetrics: the same recording downstream for the other two signals (item id = timestamp).
+func (n *verifNext) ConsumeLogs(ctx context.Context, ld plog.Logs) error {
+	if n.begin(ctx, verifIDsOf(ld)).failed {
+		return errVerifExport
+	}
+	return nil
+}
+
+func (n *verifNext) ConsumeMetrics(ctx context.Context, md pmetric.Metrics) error {
+	if n.begin(ctx, verifIDsOf(md)).failed {
 		return errVerifExport
 	}
 	return nil
